@@ -1,6 +1,8 @@
 package main
 
 import (
+	"go/token"
+	"go/types"
 	"sort"
 	"strings"
 
@@ -10,7 +12,7 @@ import (
 func init() { registry["C09"] = checkC09 }
 
 func checkC09(c *Check) {
-	c.Explanation = "Decided on all paths of the gateway's TLS verifier and router: (R1) trust source — the certificate pool used as verification roots (or an equality test against the presented bytes) is populated from the on-chain query response, never only from the peer-presented certificate; (R2) in the client-certificate branch every return that can be nil passes through the success edge of x509 Verify, which is dominated by: exactly one certificate, parse ok, subject CN is an address, chain query ok with filter (owner = that address, serial = presented serial, state valid), exactly one valid result; verification uses ClientAuth key usage and the wall clock; rejections built with Wrap(nil, ..) count as nil returns; TLS requests client certs and at least TLS 1.2; (R3) every route whose handler reads the authenticated owner / lease id / deployment id sits behind requireOwner and the matching id middleware; (R4) the owner context value is set only from the verified peer certificate's CN after rejecting requests without one, the provider value only from the server's own address, lease/deployment ids are assembled from those two plus numeric path variables only, and every id passed to the cluster/manifest clients comes from those context values."
+	c.Explanation = "Decided on all paths of the gateway's TLS verifier and router: (R1) trust source — the certificate pool used as verification roots (or an equality test against the presented bytes) is populated from the on-chain query response, never only from the peer-presented certificate; (R2) in the client-certificate branch every return that can be nil passes through the success edge of x509 Verify, which is dominated by: exactly one certificate, parse ok, subject CN is an address, chain query ok with filter (owner = that address, serial = presented serial, state valid), exactly one valid result; verification uses ClientAuth key usage and the wall clock; rejections built with Wrap(nil, ..) count as nil returns; TLS requests client certs and at least TLS 1.2; (R3) every route whose handler reads the authenticated owner / lease id / deployment id sits behind requireOwner and the matching id middleware; (R4) the owner context value is set only from the verified peer certificate's CN after rejecting requests without one, the provider value only from the server's own address, lease/deployment ids are assembled from those two plus numeric path variables only, and every id passed to the cluster/manifest clients comes from those context values; (R5) the gateway packages keep no memo across requests (no sync.Map, no shared map access) and the TLS verifier is handed the chain query client itself."
 	c.NotDecided = "cryptographic soundness of x509.Verify and the TLS stack; expiry arithmetic inside Verify"
 	l := c.L
 	cfgFn := l.Func("provider/gateway/utils", "", "NewServerTLSConfig")
@@ -510,6 +512,104 @@ func (c *Check) scopeProvenance() {
 	if nid < 5 {
 		c.Fail("C09-R4 lost instances: %d client calls with ids", nid)
 	}
+	c.noRequestMemo()
+}
+
+// noRequestMemo (R5): every request is answered from the chain / cluster as it is now, for the caller it came from.
+// The gateway packages keep no memo that outlives a request: no sync.Map, no map reached through a captured variable,
+// a package variable or a struct field is read or written there; and the TLS verifier is handed the caller's chain
+// query client itself, not a type of the gateway packages wrapped around it (a cached "valid" answer survives
+// revocation; a cached reply keyed by the URL is served to another tenant).
+func (c *Check) noRequestMemo() {
+	l := c.L
+	n := 0
+	bad := 0
+	for _, rel := range []string{"provider/gateway/rest", "provider/gateway/utils"} {
+		for _, fn := range l.pkgFuncs(rel) {
+			if strings.HasSuffix(l.Fset.Position(fn.Pos()).Filename, "client.go") {
+				continue // the tenant-side client kept in the same package is not part of the server
+			}
+			eachInstr(fn, func(i ssa.Instruction) {
+				n++
+				switch x := i.(type) {
+				case ssa.CallInstruction:
+					if full := calleeFull(x); strings.HasPrefix(full, "(*sync.Map).") {
+						bad++
+						c.Ob("R5", "sync.Map used in "+fnName(fn), x.Pos(), false, "the gateway remembers something across requests ("+full+"): answers may outlive a revocation or be served to another tenant")
+					}
+				case *ssa.MapUpdate:
+					if src := sharedMap(x.Map, 0); src != "" {
+						bad++
+						c.Ob("R5", "shared map written in "+fnName(fn), x.Pos(), false, "a map reached through "+src+" is written while serving a request")
+					}
+				case *ssa.Lookup:
+					if _, isMap := x.X.Type().Underlying().(*types.Map); isMap {
+						if src := sharedMap(x.X, 0); src != "" {
+							bad++
+							c.Ob("R5", "shared map read in "+fnName(fn), x.Pos(), false, "a map reached through "+src+" is read while serving a request")
+						}
+					}
+				}
+			})
+		}
+	}
+	c.Ob("R5", "the gateway packages keep no memo across requests (see violations otherwise)", token.NoPos, bad == 0 && n > 1000, "")
+	// the verifier gets the chain client itself
+	ncs := 0
+	for _, fn := range l.prodFuncs() {
+		for _, call := range callsInOwn(fn) {
+			g := call.Common().StaticCallee()
+			if g == nil || g.Name() != "NewServerTLSConfig" || !strings.HasSuffix(fnPkgPath(g), "provider/gateway/utils") {
+				continue
+			}
+			ncs++
+			args := call.Common().Args
+			q := args[len(args)-1]
+			ok := true
+			why := ""
+			if mi, isMI := q.(*ssa.MakeInterface); isMI {
+				if strings.Contains(mi.X.Type().String(), akash+"/provider/gateway") {
+					ok = false
+					why = "the chain query client is wrapped in " + mi.X.Type().String() + " before it reaches the verifier: what the verifier sees is no longer the chain's current answer"
+				}
+			}
+			c.Ob("R5", "TLS verifier in "+fnName(fn)+" is handed the chain query client itself", call.Pos(), ok, why)
+		}
+	}
+	if ncs < 1 {
+		c.Fail("C09-R5 lost instances: no production call of NewServerTLSConfig")
+	}
+}
+
+// sharedMap: the map value is reached through a captured variable, a package variable or a struct field (not a map
+// made or received within the request); returns a description of the path or "".
+func sharedMap(v ssa.Value, depth int) string {
+	if depth > 6 {
+		return ""
+	}
+	switch x := v.(type) {
+	case *ssa.UnOp:
+		switch y := x.X.(type) {
+		case *ssa.FreeVar:
+			return "captured variable " + y.Name()
+		case *ssa.Global:
+			return "package variable " + y.Name()
+		case *ssa.FieldAddr:
+			return "struct field " + fieldName(y.X.Type(), y.Field)
+		case *ssa.Alloc:
+			return ""
+		}
+		return sharedMap(x.X, depth+1)
+	case *ssa.Field:
+		return "struct field " + fieldName(x.X.Type(), x.Field)
+	case *ssa.Phi:
+		for _, e := range x.Edges {
+			if s := sharedMap(e, depth+1); s != "" {
+				return s
+			}
+		}
+	}
+	return ""
 }
 
 func mustCallOf(v ssa.Value) *ssa.Call {
